@@ -440,7 +440,10 @@ func (p *Parser) ParseMemberExpression(left ast.Expression) ast.Expression {
 		Object:   left,
 		Computed: false,
 	}
-	p.NextToken()
+	// the name after the dot is an identifier (`a.(b)`, `a.[0]`, `a.1` are malformed)
+	if !p.ExpectToken(token.IDENT) {
+		return nil
+	}
 	exp.Property = p.expressionParseFn(p, MEMBER)
 	return exp
 }
